@@ -1,3 +1,5 @@
+pub mod adversarial;
+pub mod c08;
 pub mod explore;
 pub mod honest;
 
@@ -7,6 +9,7 @@ pub fn all() -> Vec<Box<dyn Check>> {
     vec![
         Box::new(honest::C01),
         Box::new(explore::C05),
+        Box::new(c08::C08),
         Box::new(explore::C09),
         Box::new(honest::C12),
         Box::new(explore::C18),
